@@ -189,6 +189,13 @@ def run_c16(rep):
                          oracle_names=[], label="c16-play")
 
 
+def run_c17(rep):
+    import fam_style
+    n, k = sizes(rep, (160, 6), (2500, 12))
+    fam_style.style_family(rep, n, k)
+    fam_style.string_level(rep, rep.seed, sizes(rep, 3000, 60000))
+
+
 # ------------------------------------------------------------------------------------------------ registry
 
 PROPS = {
@@ -403,6 +410,24 @@ PROPS = {
                    "story root is never replaced, for every history; storyWrites_none — kernel-checked over the table of "
                    "alias-into-the-story mutation sites re-extracted from both engines on every run (empty); the model being a "
                    "function, determinism is definitional there and is established for the code by the differential runs",
+    ),
+    "C17": dict(
+        theorems=["Bardic.Parser." + t for t in ["strip_comment_suffix", "strip_keeps_escaped", "strip_keeps_floordiv_assign",
+                                                  "strip_noslash", "dedent_uniform"]],
+        run=run_c17,
+        rule="each generated story (parameters, @if/@for nesting, @py blocks, hooks, @join blocks, render/input directives, "
+             "block and conditional choices, jumps) is printed once plainly and in 6 (thorough 12) random style vectors over "
+             "{legacy <<…>> vs @ forms, # comment lines between items, a trailing // comment per kind of line (text, ~, "
+             "choice, passage header, @if/@elif/@else heads, @for head, @endif/@endfor, @py:/@endpy, @render, @input, "
+             "@hook/@unhook, jump, @join), body indentation '', 2, 4 blanks or a tab}; the real compiler's outputs must be "
+             "equal as JSON values; plus random strings over a comment-heavy alphabet through strip_inline_comment and "
+             "random line groups through detect_and_strip_indentation against the Lean definitions; distinct by hash of source",
+        level_text="proof: strip_comment_suffix (the kept part never depends on what follows the first unescaped // that is "
+                   "not //=), strip_keeps_escaped, strip_keeps_floordiv_assign, strip_noslash (a line without '/' is returned "
+                   "unchanged) and dedent_uniform (adding the same blank prefix to every line of a body does not change the "
+                   "dedented body) for all strings; that each of the dozen line classifiers applies the stripper and the "
+                   "legacy/@ heads agree is decided by the style-vector oracle on the real compiler (partial: the line "
+                   "classifiers themselves are not modelled)",
     ),
 }
 
